@@ -1,6 +1,7 @@
 """Statement execution: forking paths, loops as folds, loops with invariants, heap writes."""
 import ast
 import z3
+from .folds import ssimp
 from .values import *
 from .core import Path
 from .expr import PathAbort, UNBOUND, MaybeUnbound, VBoundColl
@@ -314,7 +315,7 @@ class StmtMixin:
     # ------------------------------------------------------------------ control flow
     def st_If(self, st, path):
         c = self.truth(self.ev(st.test, path), path)
-        cs = z3.simplify(c)
+        cs = ssimp(c)
         res = []
         if not z3.is_false(cs):
             pt = path.fork(c)
@@ -332,6 +333,17 @@ class StmtMixin:
             return True
         s = z3.Solver()
         s.set('timeout', 300)
+        s.add(*p.pc)
+        if s.check() == z3.unsat:
+            return False
+        if not self.ctx.axioms:
+            return True
+        # with the quantified wf axioms satisfiable queries never saturate: deterministic resource limit
+        s = z3.Solver()
+        s.set('rlimit', 60000)
+        s.set('smt.mbqi', False)
+        for a in self.ctx.axioms:
+            s.add(a)
         s.add(*p.pc)
         return s.check() != z3.unsat
 
@@ -516,7 +528,7 @@ class StmtMixin:
                     else:
                         t, _ = self.to_seq(d, sub)
                     step = t if step is None else z3.If(c, t, step)
-                step = z3.simplify(step)
+                step = ssimp(step)
                 ft = self.seq_fold(step, ek, i, n)
                 if isinstance(cur, VList) and not cur.items:
                     new = VSeq(ft, ek)
@@ -533,14 +545,14 @@ class StmtMixin:
                     d = p.env[a]
                     t = d.t if isinstance(cur, VReal) else self.coerce(d, INT).t
                     step = t if step is None else z3.If(c, t, step)
-                ft = self.num_fold('sum', z3.simplify(step), i, n)
+                ft = self.num_fold('sum', ssimp(step), i, n)
                 path.env[a] = VInt(cur.t + ft) if isinstance(cur, VInt) else VReal(cur.t + ft)
             elif isinstance(cur, VStr):
                 step = None
                 for c, p in reversed(branches):
                     t = p.env[a].t
                     step = t if step is None else z3.If(c, t, step)
-                decl, args = ctx.folds.make('concat', z3.simplify(step), i, z3.StringVal(''), z3.Concat, z3.StringSort())
+                decl, args = ctx.folds.make('concat', ssimp(step), i, z3.StringVal(''), z3.Concat, z3.StringSort())
                 path.env[a] = VStr(z3.Concat(cur.t, decl(*(args + [n]))))
         for o in others:
             if o not in accs:
